@@ -255,6 +255,43 @@ Theorem C16_stall_scenario :
 Proof. destruct stall_scenario_code as (A & B & C & D). pose proof stall_scenario_early. repeat split; assumption. Qed.
 Print Assumptions C16_stall_scenario.
 
+(* ---------------------------------------------------------------- outbound: in progress => slot held
+   The same phases for the outbound side: in progress from the moment gossip takes the slot until the offer has ended -
+   offer()/processOffer returned without starting a transfer, or the transfer goroutine finished dialling and writing or
+   gave up.  out_phases false = the code as it is; out_phases true = the deferred closure of processOffer evaluating
+   notStartedUtp at the defer statement (Release at return although the transfer goroutine was started). *)
+Theorem C16_out_phases_refine_events : forall o, erase_phases (out_phases false o) = out_events true o.
+Proof. exact out_phases_erase. Qed.
+Print Assumptions C16_out_phases_refine_events.
+
+Theorem C16_outbound_slot_held_while_in_progress : forall o, slot_covers false false (out_phases false o) = true.
+Proof. exact out_phases_covered. Qed.
+Print Assumptions C16_outbound_slot_held_while_in_progress.
+
+(* at no time are more outbound transfers in progress than the limit: any outcomes, any interleaving, stopped anywhere *)
+Theorem C16_outbound_in_progress_bounded : forall limit (os : list out_outcome) sched,
+  exists sem ts,
+    isched_run limit sched (0, map (fun o => it_start (out_phases false o)) os) = Ok (sem, ts) /\
+    (N.of_nat (n_inprog ts) <= sem) /\ sem = N.of_nat (n_held ts) /\ sem <= limit.
+Proof. exact outbound_in_progress_bounded. Qed.
+Print Assumptions C16_outbound_in_progress_bounded.
+
+Theorem C16_outbound_early_release_refuted :
+  (forall t, slot_covers false false (out_phases true (OGot (PWorker (SReply (RAccepted t))))) = false) /\
+  exists sched sem ts,
+    isched_run 1 sched (0, map (fun o => it_start (out_phases true o))
+                              [OGot (PWorker (SReply (RAccepted TSuccess))); OGot (PWorker (SReply (RAccepted TSuccess)))]) = Ok (sem, ts) /\
+    n_inprog ts = 2%nat.
+Proof. split; [exact out_early_release_not_covered | exact out_early_release_exceeds_limit]. Qed.
+Print Assumptions C16_outbound_early_release_refuted.
+
+(* the outbound scenario of the harness (accepted offer, the receiver never lets the stream come up), on the model *)
+Theorem C16_ostall_scenario :
+  ostall_scenario false 1 0 = Ok (0, 1) /\ ostall_scenario false 3 0 = Ok (2, 3) /\
+  ostall_scenario false 3 2 = Ok (0, 1) /\ ostall_scenario true 1 0 = Ok (1, 1).
+Proof. exact ostall_scenario_code. Qed.
+Print Assumptions C16_ostall_scenario.
+
 Example C16_nonvacuous :
   out_events true (OGot (PWorker STalkErr)) = [Acquire; Release] /\
   out_events false (OGot (PWorker STalkErr)) = [Acquire] /\
